@@ -539,7 +539,7 @@ func main() {
 		}
 	}
 
-	budget := time.Duration(run.Pick(48, 12*60+30)) * time.Second
+	budget := time.Duration(run.Pick(360, 12*60+30)) * time.Second // quick: a safety net (the quick depths take well under a minute on an idle machine)
 	if v := os.Getenv("VERIF_C16_BUDGET"); v != "" {
 		if d, err := time.ParseDuration(v); err == nil {
 			budget = d
